@@ -3,7 +3,7 @@ import sockcheck
 
 LEAN_MODULES = ["PyAirtouch.Props.C07", "PyAirtouch.Props.C07Heal"]
 LEVEL = "proof"
-MONITORS = ["c07a", "c07b", "c07c", "c01a", "c02a", "c02b"]
+MONITORS = ["c07a", "c07b", "c07c", "c01a", "c01d", "c02a", "c02b"]
 
 
 def _nontrivial(script, r):
@@ -23,6 +23,17 @@ def run(ctx, deep=False):
         "the Lean model. non-trivial = contains at least one fault")
     for gen in (4, 5):
         items = sockcheck.gen_scripts(ctx.seed * 17 + gen, [("faults", n)])
+        # a long-lived client: more commands than the one-byte packet counter has values, a peer close in the middle, then the
+        # probe - it must still be transmitting
+        long_run = [("net", "accept"), ("open",), ("adv", 8)]
+        for i in range(300):
+            long_run.append(("send", i + 1, "ok", "idem"))
+            if i % 9 == 0:
+                long_run.append(("turn", 1))
+            if i == 150:
+                long_run += [("peer", "eof"), ("adv", 8)]
+        long_run += [("adv", 8), ("heal",)]
+        items.append(("faults", long_run))
         good = sockcheck.judge_family(ctx, "C07", items, MONITORS, gen=gen, nontrivial=_nontrivial)
         sockcheck.validate_against_model(ctx, good, "AT%d" % gen)
     ctx.assumptions += ["real half-open TCP detection and OS errors other than the injected ones are environment"]
